@@ -3,8 +3,13 @@
 //! Every row-group read used to reopen the file and re-parse the footer
 //! (arrow's `try_new` path): lineitem at SF=10 has ~900 row groups, so a
 //! single scan parsed the same multi-column footer ~900 times. The cache
-//! parses once per (path, mtime) and hands out cheap clones
+//! parses once per (path, mtime, length) and hands out cheap clones
 //! (`ArrowReaderMetadata` is Arc-backed).
+//!
+//! An entry is valid only while BOTH the modification time and the byte
+//! length of the file match: mtime alone misses a replacement that preserves
+//! it (`cp -p`, `rsync -t`) or lands inside the timestamp granularity, and a
+//! stale footer points the decoder at offsets of a file that is gone.
 
 use crate::error::Result;
 use parquet::arrow::arrow_reader::{
@@ -15,17 +20,25 @@ use std::fs::File;
 use std::path::{Path, PathBuf};
 use std::time::SystemTime;
 
-static CACHE: parking_lot::RwLock<Option<HashMap<PathBuf, (SystemTime, ArrowReaderMetadata)>>> =
+/// What a cached footer is validated against: (mtime, file length).
+type Stamp = (SystemTime, u64);
+
+fn file_stamp(path: &Path) -> Result<Stamp> {
+    let meta = std::fs::metadata(path)?;
+    Ok((meta.modified()?, meta.len()))
+}
+
+static CACHE: parking_lot::RwLock<Option<HashMap<PathBuf, (Stamp, ArrowReaderMetadata)>>> =
     parking_lot::RwLock::new(None);
 
 /// Cached footer metadata for `path` (plain reader options).
 pub fn cached_metadata(path: &Path) -> Result<ArrowReaderMetadata> {
-    let mtime = std::fs::metadata(path)?.modified()?;
+    let stamp = file_stamp(path)?;
     {
         let guard = CACHE.read();
         if let Some(map) = guard.as_ref() {
             if let Some((t, md)) = map.get(path) {
-                if *t == mtime {
+                if *t == stamp {
                     return Ok(md.clone());
                 }
             }
@@ -36,7 +49,7 @@ pub fn cached_metadata(path: &Path) -> Result<ArrowReaderMetadata> {
     let mut guard = CACHE.write();
     guard
         .get_or_insert_with(HashMap::new)
-        .insert(path.to_path_buf(), (mtime, md.clone()));
+        .insert(path.to_path_buf(), (stamp, md.clone()));
     Ok(md)
 }
 
@@ -48,7 +61,7 @@ pub fn cached_reader_builder(path: &Path) -> Result<ParquetRecordBatchReaderBuil
 }
 
 static SCHEMA_CACHE: parking_lot::RwLock<
-    Option<HashMap<(PathBuf, usize), (SystemTime, ArrowReaderMetadata)>>,
+    Option<HashMap<(PathBuf, usize), (Stamp, ArrowReaderMetadata)>>,
 > = parking_lot::RwLock::new(None);
 
 /// Reader builder with a coercion schema override (e.g. dictionary string
@@ -58,12 +71,12 @@ pub fn cached_reader_builder_with_schema(
     schema: arrow::datatypes::SchemaRef,
 ) -> Result<ParquetRecordBatchReaderBuilder<File>> {
     let key = (path.to_path_buf(), std::sync::Arc::as_ptr(&schema) as usize);
-    let mtime = std::fs::metadata(path)?.modified()?;
+    let stamp = file_stamp(path)?;
     {
         let guard = SCHEMA_CACHE.read();
         if let Some(map) = guard.as_ref() {
             if let Some((t, md)) = map.get(&key) {
-                if *t == mtime {
+                if *t == stamp {
                     let file = File::open(path)?;
                     return Ok(ParquetRecordBatchReaderBuilder::new_with_metadata(
                         file,
@@ -81,7 +94,7 @@ pub fn cached_reader_builder_with_schema(
     SCHEMA_CACHE
         .write()
         .get_or_insert_with(HashMap::new)
-        .insert(key, (mtime, md.clone()));
+        .insert(key, (stamp, md.clone()));
     let file = File::open(path)?;
     Ok(ParquetRecordBatchReaderBuilder::new_with_metadata(file, md))
 }
